@@ -121,6 +121,38 @@ def run(chk):
             oracle_bad.append(dict(info32, op="dtype of the draw", expected="float32", observed=str(s32.dtype)))
         elif np.asarray(s32).shape != want32.shape or float(np.max(np.abs(np.asarray(s32, dtype=np.float64) - want32))) > 1e-4:
             oracle_bad.append(dict(info32, op="mean + L z (z drawn in the process dtype)", expected=want32.tolist(), observed=np.asarray(s32).tolist()))
+    # mixed precision: a float32 mean makes the PROCESS dtype float32 (z is drawn in float32) while kernel, inputs and factor are
+    # float64; the draw is then float64(mean) + L z computed in float64 -- under both solvers, to float64 accuracy
+    from tinygp.kernels import quasisep as _qs
+    for sname_, scls_ in (("direct", DirectSolver), ("quasisep", QuasisepSolver)):
+        for shp in (None, (), (4,), (2, 3)):
+            nmx = 6
+            Xmx = jnp.asarray(np.linspace(0.0, 4.0, nmx))
+            gmx = GaussianProcess(_qs.Matern32(jnp.asarray(1.3), jnp.asarray(0.9)), Xmx, diag=jnp.asarray(0.2), mean=jnp.float32(0.75), solver=scls_)
+            keymx = jax.random.PRNGKey(5)
+            smx = np.asarray(gmx.sample(keymx, shp))
+            full = (nmx,) if shp is None else (nmx,) + tuple(shp)
+            zmx = np.asarray(jax.random.normal(keymx, shape=full, dtype=gmx.dtype), dtype=np.float64)
+            Lmx = np.linalg.cholesky(np.asarray(gmx.covariance, dtype=np.float64))
+            wantmx = 0.75 + (np.moveaxis(np.tensordot(Lmx, zmx, axes=(1, 0)), 0, -1) if shp is not None else Lmx @ zmx)
+            infomx = dict(kernel="Matern32(float64) with a float32 mean", solver=sname_, process="prior", shape=str(shp), dtype=str(gmx.dtype))
+            hist["mixed-precision"] = hist.get("mixed-precision", 0) + 1
+            if smx.shape != wantmx.shape or float(np.max(np.abs(smx.astype(np.float64) - wantmx))) > 1e-10:
+                oracle_bad.append(dict(infomx, op="mean + L z (float32 z, float64 factor)", expected=wantmx.tolist(), observed=smx.tolist()))
+        # integer-valued right-hand sides: the triangular product / solve act on their values (no truncation to the argument's dtype)
+        gint = GaussianProcess(_qs.Matern32(jnp.asarray(1.3), jnp.asarray(0.9)), jnp.asarray(np.linspace(0.0, 4.0, 6)), diag=jnp.asarray(0.2), solver=scls_)
+        for vint in (np.arange(1, 7), np.arange(12).reshape(6, 2) - 5, np.arange(1, 7, dtype=np.int32)):
+            hist["integer rhs"] = hist.get("integer rhs", 0) + 1
+            for opn_, fn_ in (("dot_triangular", gint.solver.dot_triangular), ("solve_triangular", gint.solver.solve_triangular)):
+                try:
+                    gotf = np.asarray(fn_(jnp.asarray(vint.astype(np.float64))))
+                    goti = np.asarray(fn_(jnp.asarray(vint)))
+                except Exception:   # noqa: BLE001  (integer operands are not promised to be accepted)
+                    continue
+                ok, dv = close(goti, gotf, 1e-10)
+                if not ok:
+                    oracle_bad.append(dict(op=f"{opn_} of an integer-typed array vs the same values as floats", kernel="Matern32", solver=sname_, n=6,
+                                           rhs_dtype=str(vint.dtype), expected=gotf.tolist(), observed=goti.tolist()))
     model = coq_eval("c12", IMPORTS, exprs, defs=DEFS, shard=10)
     for (info, g), mv in zip(expect, model):
         ok, dv = close(mv, g, 1e-8)
